@@ -79,8 +79,9 @@ type c36cfg struct {
 func (c c36cfg) String() string { return fmt.Sprintf("n=%d p=%v name=%q", c.N, c.P, c.Name) }
 
 type c36payload struct {
-	Cfg c36cfg `json:"cfg"`
-	Ops []int  `json:"ops"`
+	Cfg  c36cfg `json:"cfg"`
+	Ops  []int  `json:"ops"`
+	Lost int    `json:"lost,omitempty"` // 1+index of the step whose script is executed by the server but the reply lost (0 = none)
 }
 
 type c36world struct {
@@ -101,6 +102,7 @@ func (w *c36world) wipe() {
 	w.srv.ScriptFlush()
 	w.srv.Log = nil
 	w.cl.Calls = nil
+	w.cl.LoseReply = nil
 	w.cl.Sess.Executed, w.cl.Sess.Received = nil, nil
 }
 
@@ -178,10 +180,10 @@ func c36positions(key string, k uint, size uint) []string {
 	return out
 }
 
-func c36run(r *vrun.Run, w *c36world, cfg c36cfg, ops []int, outcomes bool) (nontrivial bool) {
+func c36run(r *vrun.Run, w *c36world, cfg c36cfg, ops []int, outcomes bool, lost int) (nontrivial bool) {
 	ctx := context.Background()
 	w.wipe()
-	payload := c36payload{Cfg: cfg, Ops: append([]int{}, ops...)}
+	payload := c36payload{Cfg: cfg, Ops: append([]int{}, ops...), Lost: lost}
 	var cf CountingBloomFilter
 	var err error
 	if p, site := vrun.Catch(func() { cf, err = NewCountingBloomFilter(w.cl, cfg.Name, cfg.N, cfg.P) }); p != nil {
@@ -201,7 +203,11 @@ func c36run(r *vrun.Run, w *c36world, cfg c36cfg, ops []int, outcomes bool) (non
 		}
 	}
 	fail := func(sig, format string, a ...any) {
-		r.Violate(sig, fmt.Sprintf("config %v (size=%d, hashIterations=%d), history [%s]: ", cfg, size, k, c36hist(ops))+fmt.Sprintf(format, a...), payload)
+		lostNote := ""
+		if lost > 0 {
+			lostNote = fmt.Sprintf(" (the first script command of step %d was executed by the server but its reply was lost; a command flagged retryable is then re-sent, any other fails)", lost-1)
+		}
+		r.Violate(sig, fmt.Sprintf("config %v (size=%d, hashIterations=%d), history [%s]%s: ", cfg, size, k, c36hist(ops), lostNote)+fmt.Sprintf(format, a...), payload)
 	}
 
 	// ---- reference model: multiset of items (adds minus removals) and whether the precondition of the property
@@ -279,6 +285,18 @@ func c36run(r *vrun.Run, w *c36world, cfg c36cfg, ops []int, outcomes bool) (non
 		var opErr error
 		var bs []bool
 		var ms []uint64
+		w.cl.LoseReply = nil
+		if step == lost-1 {
+			armed, runs0 := true, w.srv.ScriptRuns
+			w.cl.LoseReply = func(argv []string) bool {
+				// the first command of the step that made the server run a script body (not an EVALSHA answered NOSCRIPT)
+				if armed && w.srv.ScriptRuns > runs0 {
+					armed = false
+					return true
+				}
+				return false
+			}
+		}
 		p, site := vrun.Catch(func() {
 			switch op.Kind {
 			case c36Add:
@@ -307,6 +325,7 @@ func c36run(r *vrun.Run, w *c36world, cfg c36cfg, ops []int, outcomes bool) (non
 				opErr = cf.Delete(ctx)
 			}
 		})
+		w.cl.LoseReply = nil
 		if p != nil {
 			fail("panic in "+name+" at "+site, "step %d %v: panic %v", step, op, p)
 			return
@@ -491,6 +510,7 @@ func TestVerif_C36(t *testing.T) {
 		r.Rule = "for every (n,p) of the grid accepted by NewCountingBloomFilter: every history of 1..depth operations over the 15-operation alphabet " +
 			"(adds of a,b; removals of a,b and of the never added c; queries; Count; Delete); after every step the server side hash and counter key are " +
 			"snapshotted and, while the precondition holds, ExistsMulti/ItemMinCountMulti([b,a,c]) are probed. State = (configuration, history). " +
+			"For (n=10,p=0.001) and (n=1,p=0.5) every history shorter than the maximum is also run once per adding/removing step with the reply of that step's script command lost after execution (retryable commands are re-sent, others fail: the client's retry rule). " +
 			"Non-trivial = the history contains a removal or a query that owes an answer for an item with positive net multiplicity."
 		r.Assume("the mini Lua interpreter and the fake server execute EVAL/EVALSHA, HINCRBY, HGET, HMGET, INCRBY, DECRBY, DEL, GET like Redis 7")
 		r.Assume("counter positions of an item follow the documented double hashing scheme (h1 + i*h2) mod size over murmur3-128 (package function hash is trusted)")
@@ -502,7 +522,7 @@ func TestVerif_C36(t *testing.T) {
 			if err := json.Unmarshal(raw, &p); err != nil {
 				panic(err)
 			}
-			c36run(r, c36newWorld(), p.Cfg, p.Ops, false)
+			c36run(r, c36newWorld(), p.Cfg, p.Ops, false, p.Lost)
 			return
 		}
 		ns := []uint{1, 2, 3, 10, 1000, 1000000}
@@ -554,6 +574,7 @@ func TestVerif_C36(t *testing.T) {
 				}
 				r.Bounds[fmt.Sprintf("history_length[%v]", cfg)] = depth
 				w := c36newWorld()
+				lostRuns := (n == 10 && p == 1e-3) || (n == 1 && p == 0.5)
 				for length := 1; length <= depth; length++ {
 					ops := make([]int, length)
 					var rec func(i int) bool
@@ -565,8 +586,23 @@ func TestVerif_C36(t *testing.T) {
 							r.Evaluations++
 							h := c36hist(ops)
 							r.StateStr(cfg.String(), h)
-							if c36run(r, w, cfg, ops, true) {
+							if c36run(r, w, cfg, ops, true, 0) {
 								r.NonTrivialStr(cfg.String(), h)
+							}
+							// environment deviation: the reply of one adding / removing step is lost after the server executed it
+							// (small colliding configurations, histories one level shorter than the maximum)
+							if lostRuns && length < maxLen {
+								for s, o := range ops {
+									if c36alphabet[o].Kind > c36RemoveMulti {
+										continue
+									}
+									r.Evaluations++
+									hl := fmt.Sprintf("%s / reply of step %d lost", h, s)
+									r.StateStr(cfg.String(), hl)
+									if c36run(r, w, cfg, ops, true, s+1) {
+										r.NonTrivialStr(cfg.String(), hl)
+									}
+								}
 							}
 							return true
 						}
